@@ -30,7 +30,8 @@ def mk(cases, label, f, doc=None, finding=None, model=None):
             r = f()
         except Exception as e:
             box["exc"] = e
-            return out_err(e)
+            o = out_err(e)
+            return "err Other" if (model is not None and o.startswith("err Other:")) else o     # the guard models have one class for non-library exceptions
         box["ret"] = r
         return "returned " + type(r).__name__
 
@@ -201,6 +202,18 @@ def one(cases, rng, tier, rep, d):
             mk(cases, "apply_mask/index-out-of-range/" + tag, lambda x=x, d=d: x.apply_mask(tn.tensor([[N[0] + 5] + [0] * (d - 1)])), None)
             mk(cases, "mprod/mode-out-of-range/" + tag, lambda x=x, d=d: x.mprod(tn.ones(2, 2), d + 1), None)
             mk(cases, "mprod/list-vs-int/" + tag, lambda x=x: x.mprod([tn.ones(2, N[0])], 0), InvalidArguments)
+            # list form: lists of different lengths (surplus matrix / surplus mode), a listed position outside the train, a repeated mode whose
+            # second matrix fits only the ORIGINAL size; controls: equal lengths incl. a repeated mode
+            F0 = tn.ones([5, N[0]], dtype=tn.float64); F0b = tn.ones([3, 5], dtype=tn.float64); Fl = tn.ones([2, N[d - 1]], dtype=tn.float64)
+            mk(cases, "mprod/list-more-matrices/" + tag, lambda x=x, F0=F0, F0b=F0b: x.mprod([F0, F0b], [0]), InvalidArguments,
+               model=J("guard2", "mprodlist", shape_tok(x), 1, 2, 0, 5, N[0], 0, 3, 5))
+            mk(cases, "mprod/list-more-modes/" + tag, lambda x=x, F0=F0, d=d: x.mprod([F0], [0, d - 1]), InvalidArguments,
+               model=J("guard2", "mprodlist", shape_tok(x), 2, 1, 0, 5, N[0]))
+            mk(cases, "mprod/list-empty-matrices/" + tag, lambda x=x: x.mprod([], [0]), InvalidArguments, model=J("guard2", "mprodlist", shape_tok(x), 1, 0))
+            mk(cases, "mprod/list-position-equals-order/" + tag, lambda x=x, F0=F0, d=d: x.mprod([F0], [d]), None,
+               model=J("guard2", "mprodlist", shape_tok(x), 1, 1, d, 5, N[0]))
+            mk(cases, "mprod/list-repeated-mode-stale-size/" + tag, lambda x=x, F0=F0: x.mprod([F0, tn.ones([2, N[0]], dtype=tn.float64)], [0, 0]), ShapeMismatch,
+               model=J("guard2", "mprodlist", shape_tok(x), 2, 2, 0, 5, N[0], 0, 2, N[0]))
             mk(cases, "cat/dim-out-of-range/" + tag, lambda x=x, d=d: torchtt.cat((x, x), d + 1), InvalidArguments, model=J("guard2", "cat", shape_tok(x), shape_tok(x), d + 1))
             mk(cases, "pad/too-many/" + tag, lambda x=x, d=d: torchtt.pad(x, tuple((1, 1) for _ in range(d + 1))), InvalidArguments, model=J("guard2", "pad", d, d + 1))
             # --- permutations / shapes / ranks
